@@ -466,7 +466,12 @@ func checkUploadCase(c UploadCase, r *Recorder) error {
 		}
 	}
 
+	poolSeen := map[string]bool{}
 	for _, f := range c.Files {
+		if poolSeen[f.Name] {
+			continue // a name listed twice is one file: the first entry says what is in it
+		}
+		poolSeen[f.Name] = true
 		if f.Link == 3 && plainName(f.Name) && f.Name != c.ctlName() {
 			if fi, err := os.Lstat(filepath.Join(root, "src", f.Name)); err == nil && fi.Mode()&os.ModeSymlink != 0 {
 				os.WriteFile(filepath.Join(root, "d1", f.Name), upContent(f), 0o644) // (over a leftover, if any)
